@@ -24,7 +24,6 @@ package core
 
 import (
 	"encoding/json"
-	"fmt"
 	"strings"
 	"sync"
 	"time"
@@ -786,10 +785,12 @@ func (s *IndexedState) doFindRules(ctx *Context, event Map) (map[string]Map, err
 		}
 
 		if !ok {
-			err = fmt.Errorf("lost rule with id %s", id)
-			Log(ERROR, ctx, "IndexedState.FindRules", "error", err, "id", id)
-			// Should we totally fail?
-			return nil, err
+			// We hold the lock, so the rule went away in this
+			// very loop: it was a dependent ('deleteWith') of
+			// a candidate that we just found expired.  Not a
+			// reason to fail the event for the other rules.
+			Log(WARN, ctx, "IndexedState.FindRules", "lostRule", id)
+			continue
 		}
 
 		body, err := ExtractRule(ctx, rule, true)
